@@ -453,10 +453,22 @@ func (w *World) OverspendProbes(n *Node, d *Driver) {
 	}
 	for ui, u := range w.Users {
 		s, err := TakeSnap(n.Book)
-		if err != nil || len(s.Leaves) != 1 || n.BackgroundMayAct(s) {
-			w.Res.Count("overspend_probes_skipped_ledger_not_single_tipped", 1)
-			return
+		for k := 0; k < 4 && err == nil && len(s.Leaves) != 1; k++ {
+			// merge the tips first (a proposal takes two of them)
+			m := w.NewTrx(w.Users[0], w.Users[1].Addr, spice.Melange{}, []byte("merge before a probe"))
+			if mv, perr := w.Propose(n, &m, "merge before a probe"); perr == nil && d != nil {
+				d.noteSealed(&mv)
+			}
+			s, err = TakeSnap(n.Book)
 		}
+		if err != nil || len(s.Leaves) != 1 {
+			w.Res.Count("overspend_probes_skipped_ledger_not_single_tipped", 1)
+			continue
+		}
+		// (with vertices parked the retry ticker may change the ledger under the probe: the probe is made all the same and
+		// judged by the per-confirmation oracle, which reads the history the vertex really has; the direct verdicts below
+		// are given only on a ledger nothing else can move)
+		quietLedger := !n.BackgroundMayAct(s)
 		if u.Addr == w.GenIss || n.Tainted[u.Addr] {
 			continue
 		}
@@ -497,7 +509,7 @@ func (w *World) OverspendProbes(n *Node, d *Driver) {
 			w.EvalFor(p, 1)
 			w.NontrivFor(p, fmt.Sprintf("overspend-probe/%s/accepted-as-tip=%v/checkpoint=%v", amountClass(FromVal(probe).Currency, FromVal(probe).SupplementaryCurrency), perr == nil, len(s.Stored) > 0))
 		}
-		if cur := n.Prev; perr == nil && cur != nil {
+		if cur := n.Prev; perr == nil && cur != nil && quietLedger && !n.BackgroundMayAct(cur) {
 			if _, still := cur.Live[pv.Hash]; still {
 				if !cur.Leaves[pv.Hash] {
 					// (the C01 oracle has reported the confirmation; said again in the words of the probe)
